@@ -125,7 +125,27 @@ func c08MapOrders(c *RunCtx, item *int) {
 			targets = append(targets, target{lines(strings.Join(b, "\n"), "end:", post), true})
 		})
 	}
-	for _, tg := range targets {
+	// one core owning two lines that two other cores want at the same time: 3 and 4 cores only
+	twoLines := []string{"sw t0, 0(zero)", "sw t1, 64(zero)", "lw t2, 0(zero)", "lw t1, 64(zero)", "sw t2, 64(zero)"}
+	nTwo := 0
+	seqs(len(twoLines), 4, func(idx []int) {
+		var b []string
+		stores := 0
+		for _, i := range idx {
+			b = append(b, twoLines[i])
+			if strings.HasPrefix(twoLines[i], "sw") {
+				stores++
+			}
+		}
+		// quick: programs that begin with a store to each line; thorough: all of them
+		if !c.Thorough() && !(idx[0] == 0 && idx[1] == 1) && !(idx[0] == 1 && idx[1] == 0) {
+			return
+		}
+		nTwo++
+		targets = append(targets, target{lines(strings.Join(b, "\n"), "end:", post), true})
+	})
+	twoLineFrom := len(targets) - nTwo
+	for ti, tg := range targets {
 		text := tg.text
 		ref := refRun(text, in)
 		if !ref.WellFormed || ref.Err != "" {
@@ -133,7 +153,10 @@ func c08MapOrders(c *RunCtx, item *int) {
 		}
 		for ci := range pxConfigs {
 			cfg := &pxConfigs[ci]
-			if tg.msiOnly && (famOrder[cfg.Fam] < 10 || cfg.P < 2 || (!c.Thorough() && cfg.P > 3)) {
+			if tg.msiOnly && ti < twoLineFrom && (famOrder[cfg.Fam] < 10 || cfg.P < 2 || (!c.Thorough() && cfg.P > 3)) {
+				continue
+			}
+			if tg.msiOnly && ti >= twoLineFrom && (famOrder[cfg.Fam] < 10 || cfg.P < 3) {
 				continue
 			}
 			*item++
@@ -224,9 +247,14 @@ func freshRun(cfg, init, text string) (freshResult, error) {
 }
 
 func c08HistoryOne(cfg *pxConfig, x, y string, in *pxInit, mode string) (got pxOutcome, ok bool) {
+	// the reference is only used for the cycle budget here: the oracle is "same as in a fresh
+	// process", so programs the reference rejects (out-of-bounds accesses) are welcome
 	refX, refY := refRun(x, in), refRun(y, in)
-	if !refY.WellFormed || refY.Err != "" || !refX.WellFormed || refX.Err != "" {
-		return got, false
+	if refX.Steps < 20 {
+		refX.Steps = 20
+	}
+	if refY.Steps < 20 {
+		refY.Steps = 20
 	}
 	switch mode {
 	case "after":
@@ -272,6 +300,10 @@ func c08Histories(c *RunCtx, item *int) {
 	c08HistoriesOf(c, item, c08LoopPrograms(), pxInitByID("loop"), "loop-entered-in-the-middle")
 	progs := c08Targets(1)
 	extra := []string{
+		// accesses to a line that lies wholly beyond the end of memory (variants that tolerate them
+		// must still be history-independent; the others panic identically every time)
+		lines("sw t0, 8448(zero)", "end:", post),
+		lines("lw t1, 8448(zero)", "end:", post),
 		lines("addi t0, t0, 1\naddi t1, t0, 1\nadd t2, t0, t1", "end:", post),
 		lines("lw t0, 0(zero)\naddi t0, t0, 1\nsw t0, 0(zero)\nlw t1, 0(zero)", "end:", post),
 		lines("li t3, 2\nl0:\naddi t0, t0, 1\naddi t3, t3, -1\nbnez t3, l0", "end:", post),
@@ -685,7 +717,102 @@ func c08Dual(c *RunCtx, item *int) {
 	}
 }
 
+// ---- (v) map orders inside the MSI controllers (protocol rig)
+
+type c08RigCase struct {
+	Part    string  `json:"part"`
+	Rig     rigCase `json:"rig"`
+	Choices []int   `json:"choices,omitempty"`
+}
+
+func rigObserved(k rigCase, prefix []int) *rigObservation {
+	o := &rigObservation{Prefix: prefix}
+	rigObserve = o
+	defer func() { rigObserve = nil }()
+	rigRun(k)
+	return o
+}
+
+// c08RigOrders: from every quiescent state of 3 cores x 2 lines, two requests from different cores to
+// different lines issued in the same cycle; the completion cycles, the data read and the final state must
+// not depend on the order in which the controllers range over their maps (one deviation).
+func c08RigOrders(c *RunCtx, item *int) {
+	verifrt.FullPermLimit = 3
+	defer func() { verifrt.FullPermLimit = 4 }()
+	variants := []string{"mvp7.0", "mvp7.1", "mvp8.0"}
+	for _, v := range variants {
+		setups, _ := rigSetups(v, 3, 0)
+		for _, setup := range setups {
+			for ca := 0; ca < 3; ca++ {
+				for cb := 0; cb < 3; cb++ {
+					if ca == cb {
+						continue
+					}
+					for _, oa := range []string{"read", "write"} {
+						for _, ob := range []string{"read", "write"} {
+							for _, la := range []int32{0, 64} {
+								if !c.Thorough() && la != 0 {
+									continue // quick: request a on line 0, request b on line 64
+								}
+								*item++
+								if !c.Mine(*item) {
+									continue
+								}
+								k := rigCase{Variant: v, Cores: 3, Setup: setup, Events: []rigEvent{{ca, oa, la, 0}, {cb, ob, 64 - la, 0}}}
+								base := rigObserved(k, nil)
+								c.Sum.Evaluations++
+								dev := false
+								for i := base.SetupPoints; i < len(base.Trace); i++ {
+									for alt := 1; alt < base.Trace[i].Alts; alt++ {
+										p := make([]int, i+1)
+										p[i] = alt
+										o := rigObserved(k, p)
+										c.Sum.Evaluations++
+										c.Sum.States++
+										c.Sum.Validated++
+										c.Sum.Transitions += int64(len(o.Trace))
+										dev = true
+										if o.Obs != base.Obs {
+											c.Sum.Outcomes["v:order-dependent"]++
+											c.Fail(v+"/rig-map-order/order-dependent", "order-dependent", c08RigCase{Part: "rig-map-order", Rig: k, Choices: p},
+												fmt.Sprintf("map order %d at choice point %d (map with %d keys) changes what the requests observe: %s  vs default  %s", alt, i, base.Trace[i].N, trunc(o.Obs, 300), trunc(base.Obs, 300)))
+										} else {
+											c.Sum.Outcomes["v:same"]++
+										}
+									}
+								}
+								if dev {
+									c.Sum.Nontrivial++
+								}
+								if *item%3001 == 1 {
+									c.Sample(map[string]any{"part": "rig-map-order", "rig_schedule": k, "choice_points_after_setup": len(base.Trace) - base.SetupPoints})
+								}
+							}
+						}
+					}
+				}
+			}
+		}
+	}
+}
+
 func c08Replay(prop string, raw json.RawMessage) (string, string) {
+	var probe struct {
+		Part string `json:"part"`
+	}
+	json.Unmarshal(raw, &probe)
+	if probe.Part == "rig-map-order" {
+		var rc c08RigCase
+		json.Unmarshal(raw, &rc)
+		verifrt.FullPermLimit = 3
+		defer func() { verifrt.FullPermLimit = 4 }()
+		base := rigObserved(rc.Rig, nil)
+		o := rigObserved(rc.Rig, rc.Choices)
+		if o.Obs != base.Obs {
+			return "order-dependent", trunc(o.Obs, 300) + " vs " + trunc(base.Obs, 300)
+		}
+		return "ok", ""
+	}
 	var k c08Case
 	if err := json.Unmarshal(raw, &k); err != nil {
 		return "ok", err.Error()
@@ -750,7 +877,8 @@ func init() {
 			c08Iterators(c, &item)
 			c08Histories(c, &item)
 			c08Dual(c, &item)
-			c.Sum.Rule = "(i) PX with deviations: 57 target programs (all sequences of length <= 2 over {sw, sb, lw x2, addi x2 (WAW pair), bne} + epilogue) x 33 configurations, plus same-line programs (all sequences of length 3 (quick: 64) / 3..4 (thorough: 320) over three loads and a store to one line) x the MSI configurations with 2..3 (quick) / 2..4 cores: default execution (canonical map orders) vs every execution deviating at <= 1 map-range choice point (thorough: <= 2 for the programs of length <= 1) (all n! orders for maps with <= 3 (quick) / 4 keys, transpositions + rotations + reversal beyond); (ii) comp.Queue.Iterator and ds.StableMapIteration driven by consumers that remove subsets, abandon early and push after abandoning, under a cooperative scheduler with unbounded preemptions, every interleaving; (iii) for every ordered pair (X, Y) of 11 (quick) / 31 short programs, and of the 8 programs of the loop-entered-in-the-middle family (exit branch fed by a missing load, next iteration speculated and flushed), and every configuration: Y after X, Y on a machine built while X's is alive, Y twice on one parsed Application, all equal to Y alone in a fresh OS process; (iv) two machines interleaved at cycle boundaries, every schedule with <= 1 preemption, separate and shared parsed programs, each machine compared with its solo run; oracle = bit-identical (cycles, registers, memory); non-trivial = (program, configuration) pairs with at least one multi-key map range, harnesses with more than one schedule, Y programs with at least one comparable history, and schedules with a preemption"
+			c08RigOrders(c, &item)
+			c.Sum.Rule = "(i) PX with deviations: 57 target programs (all sequences of length <= 2 over {sw, sb, lw x2, addi x2 (WAW pair), bne} + epilogue) x 33 configurations, plus same-line programs (all sequences of length 3 (quick: 64) / 3..4 (thorough: 320) over three loads and a store to one line) x the MSI configurations with 2..3 (quick) / 2..4 cores, plus two-line programs (length 4 over stores and loads to lines 0 and 64; quick: the 50 that begin with a store to each line, thorough: all 625) x the MSI configurations with 3 and 4 cores: default execution (canonical map orders) vs every execution deviating at <= 1 map-range choice point (thorough: <= 2 for the programs of length <= 1) (all n! orders for maps with <= 3 (quick) / 4 keys, transpositions + rotations + reversal beyond); (ii) comp.Queue.Iterator and ds.StableMapIteration driven by consumers that remove subsets, abandon early and push after abandoning, under a cooperative scheduler with unbounded preemptions, every interleaving; (iii) for every ordered pair (X, Y) of 13 (quick) / 33 short programs (incl. a store and a load beyond the end of memory), and of the 8 programs of the loop-entered-in-the-middle family (exit branch fed by a missing load, next iteration speculated and flushed), and every configuration: Y after X, Y on a machine built while X's is alive, Y twice on one parsed Application, all equal to Y alone in a fresh OS process; (iv) two machines interleaved at cycle boundaries, every schedule with <= 1 preemption, separate and shared parsed programs, each machine compared with its solo run; (v) on the MSI protocol rig: from every quiescent state of 3 cores x 2 lines, two requests from different cores to different lines issued in the same cycle, default map orders vs every single deviation inside the controllers / directory: completion cycles, data read and final state identical; oracle = bit-identical (cycles, registers, memory); non-trivial = (program, configuration) pairs with at least one multi-key map range, harnesses with more than one schedule, Y programs with at least one comparable history, and schedules with a preemption"
 			c.Assume("the Go memory model is not explored: scheduling points are channel operations, iterator loop heads and cycle boundaries")
 		},
 		Replay: c08Replay,
